@@ -148,6 +148,142 @@ def eval_cases(ck, name, cases):
     return res[1], res[2], res[3], res[4], res[5], out
 
 
+def opt_case_to_chunks(c):
+    """id | #streams { fp } | #batches { #runs { stream | count | err } } | #order { fp } | out   (decode_ocase in model/RespOptimizer.v);
+    in pieces of about 6000 characters: one literal of several 10 KB overflows the stack of Coq's notation interpreter"""
+    f = [str(c["id"]), str(len(c.get("fps") or []))] + list(c.get("fps") or [])
+    f.append(str(len(c.get("runs") or [])))
+    for b in c.get("runs") or []:
+        f.append(str(len(b or [])))
+        for s, n, e in b or []:
+            f += [str(s), str(n), str(e)]
+    order = c.get("order") or []
+    f.append(str(len(order)))
+    f += [o if o.isdigit() else "18446744073709551616" for o in order]      # an empty batch was observed: never a key of the map
+    f.append(esc(unhex(c["out"])))
+    line = "|".join(f)
+    chunks, i = [], 0
+    while i < len(line):
+        j = min(len(line), i + 6000)
+        while j < len(line) and "~" in line[j - 2:j]:
+            j += 1
+        chunks.append(line[i:j])
+        i = j
+    return "join_lb [" + ";\n   ".join('"%s"' % ch for ch in chunks) + "]"
+
+
+OPT_NAMES = ("OU", "OM", "OV", "OS", "OP", "OW")
+
+
+def eval_opt_cases(ck, cases):
+    """-> dict name -> list of case ids, or an error text"""
+    cases = [c for c in cases if not c.get("panic")]
+    if not cases:
+        return {n: [] for n in OPT_NAMES}
+    txt = ("From Coq Require Import List NArith ZArith Bool.\nFrom Qryn Require Import model.JsonStream model.RespOptimizer.\n"
+           "Import ListNotations.\nOpen Scope lb_scope.\n"
+           "Definition raw : list lbytes := [\n  " + ";\n  ".join(opt_case_to_chunks(c) for c in cases) + "].\n"
+           "Definition res := Eval vm_compute in (let cs := decode_ocases raw in\n"
+           "  ([oundecodable raw], opt_mismatches cs, opt_rows_violations cs, opt_splits cs, opt_splits_predicted cs, opt_single_windows cs)).\n"
+           "Definition OU := Eval vm_compute in fst (fst (fst (fst (fst res)))).\nPrint OU.\n"
+           "Definition OM := Eval vm_compute in snd (fst (fst (fst (fst res)))).\nPrint OM.\n"
+           "Definition OV := Eval vm_compute in snd (fst (fst (fst res))).\nPrint OV.\n"
+           "Definition OS := Eval vm_compute in snd (fst (fst res)).\nPrint OS.\n"
+           "Definition OP := Eval vm_compute in snd (fst res).\nPrint OP.\n"
+           "Definition OW := Eval vm_compute in snd res.\nPrint OW.\n")
+    rc, out = ck.coq_eval("C15_opt", txt)
+    if rc != 0:
+        return out[-1500:]
+    flat = " ".join(out.split())
+    res = {}
+    for nm in OPT_NAMES:
+        m = re.search(nm + r" = \[(.*?)\]\s*: list Z", flat)
+        if not m:
+            return out[-1500:]
+        res[nm] = [int(x) for x in re.findall(r"-?\d+", m.group(1))]
+    if res["OU"] != [0]:
+        return "%d optimizer case(s) could not be decoded by decode_ocase" % res["OU"][0]
+    return res
+
+
+def describe_opt(c):
+    body = unhex(c["out"]).decode("latin1")
+    return {"kind": c["kind"], "class": c.get("class"), "fingerprints": c.get("fps"), "channel batches as runs (stream, rows, 1 = io.EOF markers)": c.get("runs"),
+            "fingerprints of the batches the stage sent": c.get("order"), "body": body if len(body) < 1500 else body[:700] + " ... " + body[-700:]}
+
+
+def judge_optimizer(ck, cases, res):
+    """ResponseOptimizerPlanner -> exportStreamsValue: model bytes, rows once per stream in order, one object per stream"""
+    if not cases:
+        return
+    panics = [c for c in cases if c.get("panic")]
+    for c in panics[:1]:
+        ck.violation({"property": PID, "kind": "panic in the optimizer pipeline", "case": strip_opt(c), "panic": c["panic"], "replay": "bin/check C15 --replay <this file>"})
+    if isinstance(res, str):
+        ck.obligation("optimizer cases evaluated inside Coq", False, res)
+        return
+    byid = {c["id"]: c for c in cases}
+    size = lambda c: sum(n for b in c.get("runs") or [] for _, n, _ in b or [])
+    ck.obligation("correspondence (ResponseOptimizerPlanner -> exportStreamsValue): render (enc_streams (optimize 3000 observed-order batches)) = bytes sent, and every "
+                  "observed visiting order is a permutation of the map's keys, on %d pipelines (%d of them reach the 3000-row window)"
+                  % (len(cases), sum(1 for c in cases if size(c) >= 3000)), not res["OM"] and not panics, "case ids: %s" % res["OM"][:10])
+    ck.obligation("spec oracle (pipeline): the body is one streams document listing every row exactly once under its own labels, the rows of a stream in input order",
+                  not res["OV"], "case ids: %s" % res["OV"][:10])
+    godiff = [c["id"] for c in cases if not c.get("panic") and c["gorows"].startswith("diff")]
+    ck.obligation("encoding/json reading of every pipeline body lists the rows of every stream once and in order", not godiff,
+                  "%s %s" % (godiff[:10], [byid[i]["gorows"] for i in godiff[:3]]))
+    gosplit = sorted(c["id"] for c in cases if c.get("gorows") == "ok+split")
+    ck.obligation("the Coq reader and encoding/json agree on which pipeline bodies give a stream two objects", gosplit == sorted(res["OS"]),
+                  "Go %s Coq %s" % (gosplit[:10], res["OS"][:10]))
+    src = open(os.path.join(__import__("vcheck").REPO, "reader/logql/logql_transpiler_v2/internal_planner/planner_fingerprint_optimizer.go")).read()
+    ck.obligation("the window of ResponseOptimizerPlanner is the model's flush_threshold (`if size < 3000 {` once, `if size == 0 {` once in the source)",
+                  len(re.findall(r"if size < 3000 \{", src)) == 1 and len(re.findall(r"if size == 0 \{", src)) == 1 and len(re.findall(r"\bsize\b", src)) == 5, "")
+    # one object per stream
+    single = set(res["OW"])
+    known = ck.known_findings()
+    unexplained = [i for i in res["OS"] if i in single or i not in res["OP"]]
+    explained = [i for i in res["OS"] if i not in unexplained]
+    ck.obligation("one object per stream on every pipeline whose rows fit one window (fewer than 3000 rows: one_object_per_stream_optimized_partial), and wherever the model of the stage does not predict a split",
+                  not unexplained, "case ids: %s" % unexplained[:10])
+    ck.extra["optimizer"] = {"pipelines": len(cases), "classes": {}, "bodies with a stream in two objects": len(res["OS"]), "predicted by the model": len(res["OP"]),
+                             "single window": len(single)}
+    for c in cases:
+        ck.extra["optimizer"]["classes"][c["class"]] = ck.extra["optimizer"]["classes"].get(c["class"], 0) + 1
+    if explained:
+        fid = "optimizer-window-splits-stream"
+        w = min((byid[i] for i in explained), key=size)
+        if fid in known:
+            ck.report_known(fid, "%d of %d generated pipelines of 3000 rows or more give a stream two objects, each predicted by the model of the stage for the observed "
+                                 "visiting order (none below 3000 rows), e.g. runs %s -> batches of fingerprints %s"
+                            % (len(explained), sum(1 for c in cases if size(c) >= 3000), json.dumps(w.get("runs"))[:120], w.get("order")))
+        else:
+            ck.violation({"property": PID, "kind": "a stream is listed under two objects of the streams response", "case": strip_opt(w), "observed": describe_opt(w),
+                          "explanation": "ResponseOptimizerPlanner closes a window after 3000 rows; a stream with rows on both sides of it is sent in two batches that are "
+                                         "not neighbours, exportStreamsValue opens an object per batch (one_object_per_stream_optimized_refuted)",
+                          "replay": "bin/check C15 --replay <this file>"})
+    bad = res["OV"] or godiff or unexplained
+    if bad:
+        w = min((byid[i] for i in bad), key=size)
+        ck.violation({"property": PID, "kind": "pipeline body does not list every row once under one object per stream", "case": strip_opt(w), "observed": describe_opt(w),
+                      "explanation": "opt_rows_violation / opt_split_observed (model/RespOptimizer.v) on the bytes the real pipeline sent" if w["id"] in res["OV"] + unexplained
+                      else "encoding/json reading: " + w["gorows"], "replay": "bin/check C15 --replay <this file>"})
+    elif res["OM"] or gosplit != sorted(res["OS"]):
+        w = min((byid[i] for i in (res["OM"] or gosplit)), key=size)
+        ck.violation({"property": PID, "kind": "model of the optimizer pipeline and implementation disagree; every row is still listed once", "case": strip_opt(w),
+                      "observed": describe_opt(w), "broken": "correspondence RespOptimizer.optimize + enc_streams vs pipeline bytes"}, no_input=True)
+    distinct = set(c["out"] for c in cases if len(c.get("fps") or []) >= 2 and size(c) >= 3 and len(c.get("runs") or []) >= 2)
+    ck.coverage["evaluations"] += len(cases)
+    ck.coverage["distinct_nontrivial"] += len(distinct)
+    ck.coverage["rule"] += ("optimizer pipeline: 1..4 streams, rows laid out from run lengths over random channel batches (empty batches, io.EOF markers), "
+                            "small cases (0..39 rows) and cases of 2999 / 3000 / 3002 / 3500 / random 3000..3400 (thorough: 6000..6600) rows that reach the window of the stage; "
+                            "non-trivial = >=2 streams, >=3 rows, >=2 batches, distinct by body. ")
+    ck.add_samples([describe_opt(c) for c in cases[:1]])
+
+
+def strip_opt(c):
+    return {"id": c["id"], "kind": c["kind"], "class": c.get("class", ""), "fps": c.get("fps") or [], "runs": c.get("runs") or []}
+
+
 def case_size(c):
     return (sum(len(b or []) for b in c["batches"] or []) + len(c.get("items") or []), len(c["out"]))
 
@@ -205,6 +341,9 @@ def run_encoders(ck):
         ck.obligation("harness jsonresp ran", False, out[-1500:])
         return
     cases += [json.loads(l) for l in open(outp)]
+    # the stage in front of the streams encoder has its own model (model/RespOptimizer.v), transport and oracle
+    opt_cases = [c for c in cases if c["kind"] == "optstreams"]
+    cases = [c for c in cases if c["kind"] != "optstreams"]
     byid = {c["id"]: c for c in cases}
 
     panics = [c for c in cases if c.get("panic")]
@@ -222,7 +361,10 @@ def run_encoders(ck):
     # the shards are independent coqc runs: evaluate them side by side (the number printers made a case ~2x dearer)
     from concurrent.futures import ThreadPoolExecutor
     with ThreadPoolExecutor(max_workers=8) as ex:
+        opt_future = ex.submit(eval_opt_cases, ck, opt_cases)
         results = list(ex.map(lambda k: eval_cases(ck, "C15_enc_%d" % (k // shard), ok_cases[k:k + shard]), range(0, len(ok_cases), shard)))
+        opt_results = opt_future.result()
+    judge_optimizer(ck, opt_cases, opt_results)
     for m, v, r, fd, nl, out in results:
         if m is None:
             ck.obligation("encoder cases evaluated inside Coq", False, out[-1500:])
@@ -238,8 +380,9 @@ def run_encoders(ck):
                   "violating case ids: %s" % viol[:10])
     ck.obligation("float64(ts) and the quotients by 1e9 / 1000 of model/GoFloat.v (rne) equal Coq's IEEE 754 specification (SpecFloat.SFdiv) on every timestamp",
                   not fdis, "case ids: %s" % fdis[:10])
-    ck.obligation("without loss (evaluated in Coq per row): a microsecond-aligned TimestampNS in [0, 2^61) printed with %f reads back as exactly that many "
-                  "microseconds; a millisecond timestamp in [0, 2^53) printed with WriteFloat64 reads back as exactly that many milliseconds",
+    ck.obligation("without loss (now proved for all timestamps: matrix_timestamp_oracle_holds, prom_timestamp_oracle_holds; still evaluated in Coq per row): a microsecond-aligned "
+                  "TimestampNS in [0, 2^61) printed with %f reads back as exactly that many microseconds; a millisecond timestamp in [0, 2^43 * 1000) printed with WriteFloat64 "
+                  "reads back as exactly that many milliseconds",
                   not nloss, "case ids: %s" % nloss[:10])
     # independent readers agree on validity
     unread_s = set(unread)
